@@ -356,6 +356,17 @@ func count(s *Sx) {
 }
 
 func runCase(op *Sx) string {
+	if op.Head() == "run2" {
+		// a StateT is a VALUE: the same program run twice (from two initial states) behaves each time like a fresh run
+		// (seeds C17-7 / C01-7: FoldM consuming its iterator at run time instead of at construction)
+		s0, s1 := op.List[1].Int(), op.List[2].Int()
+		return Outcome(func() string {
+			prog := progOf(op.List[3])
+			t0, n0 := prog.Run(s0)
+			t1, n1 := prog.Run(s1)
+			return fmt.Sprintf("%s @%d ; %s @%d", Show(t0), n0, Show(t1), n1)
+		})
+	}
 	mode, s0, p := op.Head(), op.List[1].Int(), op.List[2]
 	return Outcome(func() string {
 		prog := progOf(p)
@@ -454,8 +465,11 @@ func main() {
 		ResetIDs()
 		depth := 1 + r.Intn(4)
 		p := genP(r, depth)
-		mode := Pick(r, "run", "run", "run", "run", "exec", "eval")
+		mode := Pick(r, "run", "run", "run", "run2", "exec", "eval")
 		op := L(A(mode), I(r.Range(-3, 12)), p)
+		if mode == "run2" {
+			op = L(A(mode), I(r.Range(-3, 12)), I(r.Range(-3, 12)), p)
+		}
 		count(op)
 		sink.Case(op.String(), func() string { return runCase(op) })
 	}
